@@ -94,6 +94,12 @@ def main(tier):
     tw = {"twa_0": ("JSIGHT 0.3\n" + u % "zcats", "JSIGHT 0.3\n" + u % "zcats" + u % "zdogs", [["interactions", "http GET /zdogs/{id}"], ["tags", "@zdogs"]]),
           "twa_1": ("JSIGHT 0.3\n" + u % "zcats" + bird, "JSIGHT 0.3\n" + u % "zcats" + bird + u % "zdogs", [["interactions", "http GET /zdogs/{id}"], ["tags", "@zdogs"]]),
           "twr_0": ("JSIGHT 0.3\n" + u % "zcats" + u % "zdogs", "JSIGHT 0.3\n" + u % "zcats" + bird + u % "zdogs", [["interactions", "http POST /zbirds/{k}"], ["tags", "@zbirds"]])}
+    # the same with a MACRO pasted under the URL blocks instead of a file included there
+    mg = 'MACRO @zg\n(\n' + item + ')\n'
+    up = "URL /%s/{id}\n  PASTE @zg\n"
+    tw.update({"twm_0": ("JSIGHT 0.3\n" + mg + up % "zcats", "JSIGHT 0.3\n" + mg + up % "zcats" + up % "zdogs", [["interactions", "http GET /zdogs/{id}"], ["tags", "@zdogs"]]),
+               "twm_1": ("JSIGHT 0.3\n" + mg + up % "zcats" + up % "zdogs", "JSIGHT 0.3\n" + mg + up % "zcats" + bird + up % "zdogs",
+                         [["interactions", "http POST /zbirds/{k}"], ["tags", "@zbirds"]])})
     for cid, (without, with_, keys) in tw.items():
         for sfx, t in (("w", without), ("f", with_)):
             cases.append({"id": cid + sfx, "files": {"main.jst": b64(t), "parts/item.jst": b64(item)}, "root": "main.jst"})
